@@ -29,28 +29,101 @@ def btwbAt (deg : Nat) (rows : List Row) (ws : List Rat) (i j : Nat) : Rat :=
 def applyB (deg : Nat) (rows : List Row) (c : List Rat) : List Rat :=
   rows.map fun r => sumL ((List.range (deg + 1)).map fun (t : Nat) => r.vals.getD t 0 * c.getD (r.left - deg + t) 0)
 
-/-- exact normwise backward error pieces of a coefficient vector against
-`(B'WB + λ D'D [+ λ₁ B'D₁'D₁B]) c = B'W y [+ λ₁ B'D₁'D₁ y]` (W replaced by W² and the extras added when `iasls`) -/
-def backwardErrorP (deg d : Nat) (lam lam1 : Rat) (iasls : Bool) (knots xs ys ws c : List Rat) : Rat × Rat :=
+/-- `_basis_midpoints(knots, spline_degree)`: the centre of every basis function's support -/
+def basisMidpoints (knots : List Rat) (deg : Nat) : List Rat :=
+  if deg % 2 = 1 then (knots.take (knots.length - (deg - deg / 2))).drop (1 + deg / 2)
+  else
+    let mids := List.zipWith (fun a b => (a + b) / 2) (knots.drop 1) knots
+    (mids.take (mids.length - deg / 2)).drop (deg / 2)
+
+/-- `np.interp(t, xs, vs)` for increasing `xs`: piecewise linear, clamped at both ends -/
+def npInterp (xs vs : List Rat) (t : Rat) : Rat :=
+  let n := xs.length
+  if n = 0 then 0
+  else if t ≤ xs.getD 0 0 then vs.getD 0 0
+  else if xs.getD (n - 1) 0 ≤ t then vs.getD (n - 1) 0
+  else
+    -- last j with xs[j] ≤ t
+    let j := (List.range n).foldl (fun (acc j : Nat) => if xs.getD j 0 ≤ t then j else acc) 0
+    let x0 := xs.getD j 0
+    let x1 := xs.getD (j + 1) 0
+    vs.getD j 0 + (t - x0) * (vs.getD (j + 1) 0 - vs.getD j 0) / (x1 - x0)
+
+/-- row scaling of the `λ D'D` penalty: ones (kind 0 std, 1 iasls), `1 − η·w̃` (kind 2, drpls), `α̃` (kind 3, aspls),
+where `˜` is interpolation at the basis midpoints -/
+def rowScale (kind : Nat) (p1 : Rat) (knots xs ws aux : List Rat) (deg nb : Nat) : List Rat :=
+  if kind = 2 then (basisMidpoints knots deg).map fun t => 1 - p1 * npInterp xs ws t
+  else if kind = 3 then (basisMidpoints knots deg).map fun t => npInterp xs aux t
+  else List.replicate nb 1
+
+/-- exact normwise backward error pieces of a coefficient vector against the documented system
+`(B'WB + S·λ D'D + E) c = B'W y + e`:
+kind 0: `S = I`, no extras; kind 1 (iasls): `W → W²`, `E = λ₁ B'D₁'D₁B`, `e = λ₁ B'D₁'D₁ y`;
+kind 2 (drpls): `S = I − η W̃`, `E = D₁'D₁` (on the coefficients); kind 3 (aspls): `S = diag(α̃)` -/
+def backwardErrorP (deg d : Nat) (lam p1 : Rat) (kind : Nat) (knots xs ys ws aux c : List Rat) : Rat × Rat :=
+  let iasls := kind == 1
   let nb := knots.length - (deg + 1)
   let rows := designRows knots deg xs
   let w2 := if iasls then ws.map (fun v => v * v) else ws
   let n := xs.length
   let bc := applyB deg rows c
-  -- A c = B'(W (B c)) + λ D'D c (+ λ₁ B' D₁'D₁ (B c))
   let wbc := List.zipWith (· * ·) w2 bc
-  let t1 := if iasls then (d1y bc).map (lam1 * ·) else List.replicate n 0
+  let t1 := if iasls then (d1y bc).map (p1 * ·) else List.replicate n 0
   let inner := List.zipWith (· + ·) wbc t1
   let bt := fun (v : List Rat) => (List.range nb).map fun (j : Nat) =>
     sumL ((rows.zip v).map fun (p : Row × Rat) => p.1.at deg j * p.2)
-  let ac := List.zipWith (· + ·) (bt inner) (applyBanded (fun i j => lam * dtdFastQ nb d i j) nb d c)
-  let rhs := bt (List.zipWith (· + ·) (List.zipWith (· * ·) w2 ys) (if iasls then (d1y ys).map (lam1 * ·) else List.replicate n 0))
+  let sc := rowScale kind p1 knots xs ws aux deg nb
+  let pen := fun (i j : Nat) => sc.getD i 0 * lam * dtdFastQ nb d i j + (if kind = 2 then dtdFastQ nb 1 i j else 0)
+  let ac := List.zipWith (· + ·) (bt inner) (applyBanded pen nb d c)
+  let rhs := bt (List.zipWith (· + ·) (List.zipWith (· * ·) w2 ys) (if iasls then (d1y ys).map (p1 * ·) else List.replicate n 0))
   let resid := maxL ((List.zipWith (· - ·) ac rhs).map absQ)
-  -- ‖A‖∞ bound: row sums of |B'WB| ≤ max w · (deg+1)… computed exactly row by row would be O(nb²·N); use the cheap bound Σ_k w_k B[k,j] (B ≥ 0, rows sum to 1)
+  -- ‖B'WB‖∞ = max_j Σ_k w_k B[k,j] exactly (B ≥ 0 with unit row sums, W ≥ 0)
   let colw := bt (w2.map absQ)
   let colb := maxL (bt (List.replicate n 1))
-  let anorm := maxL ((List.range nb).map fun (j : Nat) => colw.getD j 0 + absQ lam * maxL (rowAbsSums (fun i j => dtdFastQ nb d i j) nb d) +
-      (if iasls then 4 * absQ lam1 * colb else 0))
+  let anorm := maxL ((List.range nb).map fun (j : Nat) => colw.getD j 0) + maxL (rowAbsSums pen nb d) +
+      (if iasls then 4 * absQ p1 * colb else 0)
   (resid, anorm * maxL (c.map absQ) + maxL (rhs.map absQ))
+
+/-! ### 2-D: `B = B_r ⊗ B_c`, coefficients as an `nbr × nbc` matrix -/
+
+abbrev MatQ := List (List Rat)
+def MatQ.at (m : MatQ) (i j : Nat) : Rat := (m.getD i []).getD j 0
+
+/-- `B_r C B_c'` (the surface on the data grid) -/
+def applyB2 (degR degC : Nat) (rowsR rowsC : List Row) (C : MatQ) : MatQ :=
+  let T : MatQ := C.map fun (ci : List Rat) => applyB degC rowsC ci          -- C B_c' : nbr × n
+  rowsR.map fun (r : Row) => (List.range rowsC.length).map fun (l : Nat) =>
+    sumL ((List.range (degR + 1)).map fun (s : Nat) => r.vals.getD s 0 * MatQ.at T (r.left - degR + s) l)
+
+/-- `B_r' V B_c` (nbr × nbc) -/
+def btVB (degR degC nbr nbc : Nat) (rowsR rowsC : List Row) (V : MatQ) : MatQ :=
+  let U : MatQ := V.map fun (vk : List Rat) => (List.range nbc).map fun (j : Nat) =>
+    sumL ((rowsC.zip vk).map fun (p : Row × Rat) => p.1.at degC j * p.2)          -- V B_c : m × nbc
+  (List.range nbr).map fun (i : Nat) => (List.range nbc).map fun (j : Nat) =>
+    sumL ((rowsR.zip U).map fun (p : Row × List Rat) => p.1.at degR i * p.2.getD j 0)
+
+def hadamard (a b : MatQ) : MatQ := List.zipWith (List.zipWith (· * ·)) a b
+def maxM (m : MatQ) : Rat := maxL (m.map fun r => maxL (r.map absQ))
+
+/-- exact normwise backward error pieces of a coefficient matrix against
+`(B'WB + λ_r D_r'D_r ⊗ I + I ⊗ λ_c D_c'D_c) vec C = B'W vec Y` with `B = B_r ⊗ B_c` -/
+def backwardErrorP2 (degR degC dR dC : Nat) (lamR lamC : Rat) (knotsR knotsC xs zs : List Rat) (Y W C : MatQ) : Rat × Rat :=
+  let nbr := knotsR.length - (degR + 1)
+  let nbc := knotsC.length - (degC + 1)
+  let rowsR := designRows knotsR degR xs
+  let rowsC := designRows knotsC degC zs
+  let Z := applyB2 degR degC rowsR rowsC C
+  let G := btVB degR degC nbr nbc rowsR rowsC (hadamard W Z)
+  let rhs := btVB degR degC nbr nbc rowsR rowsC (hadamard W Y)
+  let pen : MatQ := (List.range nbr).map fun (i : Nat) => (List.range nbc).map fun (j : Nat) =>
+    lamR * sumL ((List.range (2 * dR + 1)).map fun (t : Nat) =>
+      if i + t < dR then 0 else let i' := i + t - dR; if i' < nbr then dtdFastQ nbr dR i i' * MatQ.at C i' j else 0) +
+    lamC * sumL ((List.range (2 * dC + 1)).map fun (t : Nat) =>
+      if j + t < dC then 0 else let j' := j + t - dC; if j' < nbc then dtdFastQ nbc dC j j' * MatQ.at C i j' else 0)
+  let resid := maxM (List.zipWith (List.zipWith (· - ·)) (List.zipWith (List.zipWith (· + ·)) G pen) rhs)
+  let colw := btVB degR degC nbr nbc rowsR rowsC (W.map fun r => r.map absQ)
+  let anorm := maxM colw + absQ lamR * maxL (rowAbsSums (fun i j => dtdFastQ nbr dR i j) nbr dR) +
+    absQ lamC * maxL (rowAbsSums (fun i j => dtdFastQ nbc dC i j) nbc dC)
+  (resid, anorm * maxM C + maxM rhs)
 
 end PbVerif.PSpline
